@@ -77,6 +77,11 @@ class ZFn:
         """type of a local or of one field of a tuple local (None if not that simple)"""
         ty = s.b["locals"][p["local"]]
         for e in p["proj"]:
+            if e["k"] == "downcast":
+                continue
+            if e["k"] == "field" and e.get("ty"):
+                ty = e["ty"]
+                continue
             if e["k"] != "field" or not (ty.startswith("(") and ty.endswith(")")):
                 return None
             parts, depth, cur = [], 0, ""
@@ -463,6 +468,13 @@ def analyse(f, ARR, body, summaries, mode="sites", ret_pairs=None, ctor_sinks=No
             if src is not None and src["k"] in ("copy", "move") and Z.canon(src["p"]) in tracked:
                 tracked.append(key)
                 grew = True
+                continue
+            # or the other way round: a tracked local is a plain copy of the scrutinee place (`Some(n)` payload bound to a name)
+            for bl2 in b["blocks"]:
+                for st2 in bl2["stmts"]:
+                    if st2["k"] == "assign" and st2["rv"]["k"] == "use" and st2["rv"]["o"]["k"] in ("copy", "move") and Z.canon(st2["rv"]["o"]["p"]) == key and Z.canon(st2["p"]) in tracked and key not in tracked:
+                        tracked.append(key)
+                        grew = True
         if not grew:
             break
     found = []
